@@ -59,11 +59,23 @@ ASSUMPTIONS = ["verdicts within 1 ms of a specified duration are not taken",
                "app_calls_update=false show what happens without it",
                "shim knob (loop mode): none = manager output untouched; strip-bbox / fix-encode / full = the cluster information "
                "container is made encodable by the harness so that the rest of the loop can be explored despite the encoding defects",
+               "loop mode, wire level: what a station hears is taken from the BTP indication on port 2018 (decoded by the harness), not from what "
+               "the manager is given; every VAM indicated there must reach the manager (with and without an LDM adapter: knob ldm)",
+               "loop mode: an emitted VAM must carry the cluster containers the manager reported at the instant of emission (information "
+               "container present iff reported, operation container with the same alternative / cluster id / reason, times within one unit)",
+               "loop mode: a notification (join / leave / break-up info) that the manager reports at three or more consecutive position reports "
+               "of an active station (stand-alone or leader, should_transmit_vam() True, no exception) must be carried by at least one VAM "
+               "emitted between the first and the last of them (the stack emits at every report >= T_GenVamMin after the previous VAM; three "
+               "reports allow for millisecond rounding at a 100 ms report period)",
+               "loop mode: after a leader's accepted break-up command every station that was a passive member of that cluster (led by that "
+               "station) must be stand-alone and transmitting at its first report later than t_b + 3 s + both report periods + 0.2 s; not judged "
+               "when either station is disturbed by other commands / silence / link faults, or for reason receptionOfCpmContainingCluster",
                "exhaustive exploration to a depth bound is not performed"]
 EXPECTED_PROBES = ["join-completed", "leader-lost", "breakup-received-from-leader", "became-leader", "join-failed-timeout",
                    "loop:join-completed", "loop:cluster-vam-received", "loop:leader-silenced", "loop:breakup-commanded",
                    "notification-masked-by-other", "boundary-exact", "decoded-rx", "hand-built-rx", "role-off-while-passive",
-                   "cluster-id-edge"]
+                   "cluster-id-edge", "loop:heard-at-btp", "loop:ldm-none", "loop:ldm-stub", "loop:emitted-vam-compared",
+                   "loop:notification-on-wire", "loop:breakup-obligation-judged"]
 
 DTS = [50, 50, 100, 100, 150, 200, 250, 300, 450, 500, 550, 900, 1000, 1050, 1950, 2000, 2050, 2950, 3000, 3050, 3100, 3500, 5000]
 
@@ -237,6 +249,8 @@ def gen_plan(run_seed: int, tier: str) -> dict:
         ops = _gen_single(r, cfg)
         return {"engine": ENGINE, "property": ID, "config": cfg, "stations": [], "ops": ops}
     cfg["shim"] = r.choices(["none", "strip-bbox", "fix-encode", "full"], [20, 12, 18, 50])[0]   # finding triggers off in "full"
+    # VRUAwarenessService(ldm=...) is optional: reception / transmission management with and without an LDM adapter (own PRNG stream)
+    cfg["ldm"] = "stub" if random.Random(run_seed ^ 0xC18AD0).random() < 0.5 else "none"
     cfg["app_calls_update"] = r.random() < 0.88
     cfg["latency_us"] = [100, 2000]
     cfg["max_events"] = 200_000
@@ -278,6 +292,62 @@ def _encode_error_field(e: Exception) -> str:
     path = msg.split(":", 1)[0].strip()
     last = path.split(".")[-1] if path else "?"
     return last if last.isidentifier() else "?"
+
+
+def _op_container(vam: dict):
+    try:
+        return vam["vam"]["vamParameters"].get("vruClusterOperationContainer")
+    except (KeyError, TypeError, AttributeError):
+        return None
+
+
+def _notif_key(opc):
+    """(kind, cluster id / reason) of the notification an operation container carries; None when there is none."""
+    if not isinstance(opc, dict) or not opc:
+        return None
+    j, l_, b = opc.get("clusterJoinInfo"), opc.get("clusterLeaveInfo"), opc.get("clusterBreakupInfo")
+    if isinstance(j, dict):
+        return ("join", j.get("clusterId"))
+    if isinstance(l_, dict):
+        return ("leave", l_.get("clusterId"), l_.get("clusterLeaveReason"))
+    if isinstance(b, dict):
+        return ("breakup", b.get("clusterBreakupReason"))
+    return None
+
+
+def _emitted_vs_manager(d: dict, f: dict, v: dict):
+    """Compare a decoded emitted VAM with the containers the manager reported at the instant of emission.  None = equal, else
+    (key, text)."""
+    st = v["mstate"].name[4:] if v.get("mstate") is not None else "?"
+    info = v.get("info")
+    try:
+        vci = info["vruClusterInformation"] if info is not None else None
+    except (KeyError, TypeError):
+        vci = {}
+    if vci is None and f["has_info"]:
+        return f"unexpected/info/{st}", "the emitted VAM has a cluster information container, the manager reported none"
+    if vci is not None and not f["has_info"]:
+        return f"missing/info/{st}", "the manager reported a cluster information container, the emitted VAM has none"
+    if vci is not None and (f["cid"] != vci.get("clusterId", 0) or f.get("card") != vci.get("clusterCardinalitySize")):
+        return f"differs/info/{st}", (f"emitted cluster id / cardinality {f['cid']} / {f.get('card')}, manager reported "
+                                      f"{vci.get('clusterId')} / {vci.get('clusterCardinalitySize')}")
+    want = v.get("opc") if isinstance(v.get("opc"), dict) and v.get("opc") else {}
+    got = _op_container(d) or {}
+    for name, kind in (("clusterJoinInfo", "join"), ("clusterLeaveInfo", "leave"), ("clusterBreakupInfo", "breakup")):
+        w_, g_ = want.get(name), got.get(name)
+        if w_ is None and g_ is None:
+            continue
+        if g_ is None:
+            return f"missing/{kind}/{st}", f"the manager reported {name} {w_}, the emitted VAM does not carry it"
+        if w_ is None:
+            return f"unexpected/{kind}/{st}", f"the emitted VAM carries {name} {g_}, the manager reported none"
+        for fld in sorted(set(w_) | set(g_)):
+            a_, b_ = w_.get(fld), g_.get(fld)
+            if fld in ("joinTime", "breakupTime") and isinstance(a_, int) and isinstance(b_, int) and abs(a_ - b_) <= 1:
+                continue
+            if a_ != b_:
+                return f"differs/{kind}/{st}", f"{name}.{fld}: emitted {b_!r}, manager reported {a_!r}"
+    return None
 
 
 def _execute_loop(plan: dict) -> dict:
@@ -324,13 +394,97 @@ def _execute_loop(plan: dict) -> dict:
                             f"({type(e).__name__}); operation container at that moment: {v['opc']}")
             continue
         f = cluster_fields(d)
+        v["f"] = f
+        v["nkey"] = _notif_key(_op_container(d))
         if f["has_info"]:
             sim.probe("loop:cluster-vam-emitted")
+        if "info" in v:
+            diff = _emitted_vs_manager(d, f, v)
+            sim.probe("loop:emitted-vam-compared")
+            if diff is not None and ("emitted", diff[0]) not in seen:
+                seen.add(("emitted", diff[0]))
+                sim.violate(ID, "emitted-vam-differs-from-manager", diff[0], f"station {v['st']} at +{(v['t'] - k.t0_us) / 1e6:.3f} s: {diff[1]} "
+                            f"(manager at emission: information container {v['info']}, operation container {v['opc']}; shim={shim})")
+                trace.append(("emitted-differs", diff[0]))
     for idx, fac in sorted(sim.fac.items()):
         for r_ in fac["received"]:
             if r_["f"]["has_info"]:
                 sim.probe("loop:cluster-vam-received")
                 break
+    # ---- every VAM indicated on port 2018 reaches the clustering manager
+    ldm = cfg.get("ldm", "none")
+    sim.probe("loop:ldm-" + ldm)
+    for idx, fac in sorted(sim.fac.items()):
+        heard_ = fac.get("heard", [])
+        if heard_:
+            sim.probe("loop:heard-at-btp", len(heard_))
+        lost = [h for h in heard_ if not h["delivered"]]
+        if lost:
+            h = lost[0]
+            sim.violate(ID, "cluster-vam-not-delivered-to-manager", f"closed-loop/ldm={ldm}", f"station {idx}: {len(lost)} of {len(heard_)} VAMs indicated "
+                        f"on BTP port 2018 never reached VBSClusteringManager.on_received_vam (first at +{(h['t'] - k.t0_us) / 1e6:.3f} s from station "
+                        f"id {h['f']['sid']}, cluster information {'present' if h['f']['has_info'] else 'absent'}; LDM adapter: {ldm})")
+            trace.append(("not-delivered", idx, ldm))
+            break
+    # ---- notifications reported by the manager are transmitted
+    S_ = VBSState
+    for idx in sorted(sim.fac):
+        group, gkey = [], None
+        mine = [v for v in sim.vam_tx if v["st"] == idx and "nkey" in v]
+
+        def close(group, gkey):
+            if len(group) < 3:
+                return
+            sim.probe("loop:notification-on-wire")
+            t1, t2 = group[0]["t"], group[-1]["t"]
+            if any(t1 <= v["t"] <= t2 and v["nkey"] == gkey for v in mine):
+                return
+            st_name = group[0]["after"]["state"].name[4:]
+            if ("notif", gkey[0], st_name) in seen:
+                return
+            seen.add(("notif", gkey[0], st_name))
+            n_tx = sum(1 for v in sim.vam_tx if v["st"] == idx and t1 <= v["t"] <= t2)
+            sim.violate(ID, "notification-not-transmitted", f"{gkey[0]}/{st_name}", f"station {idx}: the manager reported {gkey} at {len(group)} consecutive position "
+                        f"reports (+{(t1 - k.t0_us) / 1e6:.3f} .. +{(t2 - k.t0_us) / 1e6:.3f} s, state {st_name}, should_transmit_vam() True, no exception) but "
+                        f"none of the {n_tx} VAMs emitted in that interval carries it")
+            trace.append(("notification-not-transmitted", idx, gkey[0]))
+        for r_ in (x for x in sim.reports if x["st"] == idx):
+            a = r_.get("after")
+            key_ = _notif_key(a["opc"]) if (a and not r_["raised"] and a["tx"] and a["state"] in (S_.VRU_ACTIVE_STANDALONE, S_.VRU_ACTIVE_CLUSTER_LEADER)) else None
+            if key_ is None or key_ != gkey:
+                close(group, gkey)
+                group, gkey = [], None
+            if key_ is not None:
+                group.append(r_)
+                gkey = key_
+        close(group, gkey)
+    # ---- an accepted break-up command obliges the members
+    for L, fac in sorted(sim.fac.items()):
+        for b in fac.get("breakups", []):
+            per_l = plan["stations"][L].get("period_ms", 300) * 1000
+            for m in b["members"]:
+                per_m = plan["stations"][m].get("period_ms", 300) * 1000
+                deadline = b["t"] + 3_000_000 + per_l + per_m + 200_000
+                t_rel, dl_rel = b["t"] - k.t0_us, deadline - k.t0_us
+                later = [x for x in sim.reports if x["st"] == m and x["t"] > deadline and x.get("after")]
+                judged_rel = (later[0]["t"] - k.t0_us) if later else dl_rel          # commands up to the judged report count as disturbance
+                disturbed = any(t_rel <= o.get("t", -1) <= judged_rel and i_ != b["idx"] and (
+                    (o["op"] == "cluster" and o["st"] in (L, m) and o["call"] != "update") or (o["op"] == "silence" and o["st"] in (L, m))
+                    or o["op"] == "link") for i_, o in enumerate(plan["ops"])) or any(o["op"] == "link" and o.get("t", 0) <= dl_rel for o in plan["ops"])
+                good_l = [x for x in sim.reports if x["st"] == L and b["t"] <= x["t"] <= b["t"] + 3_000_000 and not x["raised"]]
+                bad_l = [x for x in sim.reports if x["st"] == L and b["t"] <= x["t"] <= deadline and x["raised"]]
+                if b["reason"] == "receptionOfCpmContainingCluster" or disturbed or sim.fac[m]["silent"] or fac["silent"] or len(good_l) < 3 or bad_l \
+                        or not later or sim.faults:
+                    sim.probe("loop:breakup-obligation-not-judged")
+                    continue
+                sim.probe("loop:breakup-obligation-judged")
+                a = later[0]["after"]
+                if not (a["state"] is S_.VRU_ACTIVE_STANDALONE and a["tx"]):
+                    sim.violate(ID, "breakup-not-recovered", "closed-loop/commanded", f"station {L} (leader of cluster {b['cid']}) accepted a break-up command "
+                                f"({b['reason']}) at +{t_rel / 1e6:.3f} s; station {m}, a passive member then, is in state {a['state'].name} with "
+                                f"should_transmit_vam()={a['tx']} at its report at +{(later[0]['t'] - k.t0_us) / 1e6:.3f} s "
+                                f"(deadline +{dl_rel / 1e6:.3f} s = warning 3 s + both report periods + 0.2 s)")
+                    trace.append(("breakup-not-recovered", L, m))
     # ---- joins towards an advertised cluster complete
     ops = plan["ops"]
     for idx, fac in sorted(sim.fac.items()):
@@ -360,7 +514,7 @@ def _execute_loop(plan: dict) -> dict:
             if not cfg.get("app_calls_update", True):
                 why = "no-update-calls"
             else:
-                heard = [r_ for r_ in fac["received"] if r_["f"]["sid"] == j["leader"] and r_["f"]["has_info"] and r_["f"]["cid"] == j["cid"]
+                heard = [r_ for r_ in fac.get("heard", fac["received"]) if r_["f"]["sid"] == j["leader"] and r_["f"]["has_info"] and r_["f"]["cid"] == j["cid"]
                          and t0 + 3_000_000 <= r_["t"] <= deadline]
                 if not heard:
                     # the leader stopped advertising (or its VAMs were lost below the facilities): not a clustering verdict
